@@ -22,13 +22,14 @@ def install_recorder_clock(clock_fn):
         def utcnow(cls):
             return _dt.datetime(2020, 1, 1) + _dt.timedelta(seconds=clock_fn())
 
+        # the simulated process runs in a UTC+9 local zone: local-time constructors differ from utcnow()
         @classmethod
         def today(cls):
-            return cls.utcnow()
+            return cls.utcnow() + _dt.timedelta(hours=9)
 
         @classmethod
         def now(cls, tz=None):
-            return cls.utcnow()
+            return cls.utcnow() + _dt.timedelta(hours=9)
     found = []
     if not getattr(T, '_mc_clock', False):
         found += rebind(T, _time.time, lambda: clock_fn())
